@@ -1132,6 +1132,18 @@ class Checker(object):
                 out = 'other:' + type(e).__name__
         self.pred('out_of_range_rejected', out in ('rejected', 'value'), dict(inp, sig='%s/%s' % (tag, out)), out, 'out_of_range')
 
+    def must_reject(self, f, specs, tag, classes=('ValueError', 'TypeError')):
+        """a call the function's own docstring says it refuses (`:raises:`): it must raise one of the documented
+        classes - neither a value nor another exception class"""
+        r = resolve(f, self.L)
+        inp = {'kind': 'oor', 'fn': f['qual'], 'args': specs}
+        try:
+            invoke(r[0], decode(specs, self.L))
+            out = 'accepted'
+        except Exception as e:   # noqa
+            out = 'rejected' if type(e).__name__ in classes else 'other:' + type(e).__name__
+        self.pred('documented_rejection', out == 'rejected', dict(inp, sig='%s/%s' % (tag, out)), out, 'documented_rejection')
+
     # ---- ill-typed arguments
     def illtyped(self, f, specs):
         L = self.L
@@ -1259,6 +1271,22 @@ def generate(ctx, shard=0, nshards=1):
     # named boundary inputs (shard 0)
     byq = {f['qual']: f for f in fns}
     if shard == 0:
+        # lists that must have the same number of entries, three at least (documented ValueError): every list
+        # argument in turn one entry shorter, one entry longer, and all of them cut to two entries
+        for q in ('Coordinates.planetary_conjunction', 'Coordinates.planet_star_conjunction',
+                  'Coordinates.planet_star_occultation', 'Coordinates.planet_stars_in_line'):
+            if q not in byq or ck.sig.get(q) is None:
+                continue
+            base, _tag = gen_args(rng, byq[q], ck.sig[q][:5])
+            lists = [i for i, a in enumerate(base) if isinstance(a, list)]
+            for i in lists:
+                for how in ('short', 'long'):
+                    v = [list(a) if isinstance(a, list) else a for a in base]
+                    v[i] = v[i][:-1] if how == 'short' else v[i] + [v[i][-1]]
+                    ck.must_reject(byq[q], v, 'uneven:%d-%s' % (i, how), ('ValueError',))
+            v = [a[:2] if isinstance(a, list) else a for a in base]
+            if lists:
+                ck.must_reject(byq[q], v, 'two-entries', ('ValueError',))
         for (q, specs, tag) in boundary_calls():
             if q in byq and tag.startswith('oor:'):
                 ck.out_of_range(byq[q], specs, tag)
